@@ -75,6 +75,16 @@ def gen_program(rng, *, mode="reliable", heavy=False, long=False):
 
 def run_program(prog, rng, *, origins=None, relay=False, spec_ab=None, spec_ba=None, probe=True,
                 record_wire=False, keep_rig=False, post_hook=None, pre_hook=None):
+    if origins is None and prog.get("wrap_origins", True):
+        # a third of the programs start one or both TSN spaces shortly before 2^32, so that the wrap happens mid-transfer
+        def near():
+            return ((1 << 32) - rng.choice([1, 2, 3, rng.randint(4, 60), rng.randint(60, 1500)])) & 0xFFFFFFFF
+        r = rng.random()
+        if r < 0.34:
+            origins = {}
+            which = rng.choice(["A", "B", "AB", "AB"])
+            for name in which:
+                origins[name] = {"tsn": near()}
     rig = SctpRig(rng, heal=prog["heal"], heavy=prog.get("heavy", False), relay=relay, origins=origins,
                   spec_ab=spec_ab, spec_ba=spec_ba, record_wire=record_wire)
     try:
@@ -152,6 +162,8 @@ def run_program(prog, rng, *, origins=None, relay=False, spec_ab=None, spec_ba=N
                               f"task failed: {te['type']} at {te['where']}: {te['repr']}")
         result.update(rig.finish())
         result["pre_hook_ok"] = pre_hook_ok
+        result["origins"] = origins
+        rig.counters["tsn_wrap_origin_runs"] += 1 if origins else 0
         result["diag"] = rig.diagnostics()
         result["counters"] = dict(rig.counters)
         result["violations"] = list(rig.violations)
